@@ -587,6 +587,10 @@ def finalize_keys(violations):
 
 
 def replay(case):
+    if case.get("part") == "ambiguous":
+        from mc.checks import c04_amb
+
+        return c04_amb.replay(case)
     vs = eval_libpass(case) if case.get("part") == "libpass" else eval_ctx(case)
     out, seen = [], set()
     for raw, desc in vs:
@@ -733,6 +737,10 @@ def run(ctx):
     acc.violations.sort(key=lambda v: v[2].get("idx", 0))
     acc.violations = finalize_keys(acc.violations)
     ctx.merge(acc)
+    # part "ambiguous": first-claimant attribution among schemes whose hash strings are indistinguishable by shape
+    from mc.checks import c04_amb
+
+    ctx.merge(core.pmap(c04_amb.work, c04_amb.tasks()), part="ambiguous")
     ctx.cov["states"] = acc.counters["states"]
     ctx.cov["transitions"] = acc.counters["transitions"]
     ctx.cov["traces_validated_against_impl"] = acc.counters["histories"]
